@@ -2243,7 +2243,10 @@ class Node(SimComponent, ABC):
         :param from_network_interface: The Network Interface that received the frame.
         """
         if self.operating_state == NodeOperatingState.ON:
-            if frame.ip:
+            # only a sender on the receiving interface's own subnet is reachable at the frame's source MAC; a packet
+            # that was routed here carries the MAC of the last router, not of its sender
+            network = getattr(from_network_interface, "ip_network", None)
+            if frame.ip and (network is None or frame.ip.src_ip_address in network):
                 if self.software_manager.arp:
                     self.software_manager.arp.add_arp_cache_entry(
                         ip_address=frame.ip.src_ip_address,
